@@ -798,6 +798,64 @@ def flow_network_details(ctx, rid):
                     "activity (or `pred not found` panics)" % shape.show(ke)[:120], loc=gm[0].line())
         else:
             ctx.undecided(o, "key provenance not recognised")
+    # the arc of an activity runs from the node stored as component 0 of its pair to the one stored as component 1
+    for role in ("trip", "maintenance"):
+        es = [e for e in edges if e.role == role]
+        o = ctx.ob("%s.%s-arc-direction" % (rid, role), "T12", SFVT, "the arc of a %s runs from its left copy (pair component 0) to its right copy (component 1)" % role)
+        if len(es) != 1 or add_edge_of(es[0]) is None:
+            ctx.undecided(o, "arc construction not recognised")
+            continue
+        c = add_edge_of(es[0])
+        o.loc = c.line()
+        a = root_local(fd, c.args[1].place.local) if c.args[1].place is not None else None
+        b = root_local(fd, c.args[2].place.local) if c.args[2].place is not None else None
+        pairs = []
+        for ins in fd.body.instrs():
+            if ins.kind == "assign" and ins.rv_kind() == "agg" and ins.rv.get("ak") == "tuple" and len(ins.ops) == 2 \
+                    and all(op.place is not None for op in ins.ops):
+                x, y = root_local(fd, ins.ops[0].place.local), root_local(fd, ins.ops[1].place.local)
+                if {x, y} == {a, b}:
+                    pairs.append((x, y))
+        if not pairs or a is None or b is None:
+            ctx.undecided(o, "the (left, right) pair of the arc's end points is not recognised")
+        elif all(p == (a, b) for p in pairs):
+            ctx.ok(o, "add_edge(left, right) with (left, right) stored as the pair")
+        else:
+            ctx.bad(o, "add_edge at %s runs from the node stored as component 1 to the one stored as component 0: connections enter at component 0 "
+                    "and leave at component 1, so no flow can pass this %s" % (c.line(), role), loc=c.line())
+    # decoding skips the arcs without flow (and only those)
+    o = ctx.ob("%s.decoding-skips-empty-arcs-only" % rid, "T12+abs", SFVT, "an in-arc is skipped by the decoder iff its flow is zero")
+    from .. import optabs
+    verdict = None
+    for k2 in ctx.prog.family(SFVT):
+        f2 = ctx.fd(k2)
+        if not f2.body.is_closure or "Option<" not in f2.body.local_ty(0):
+            continue
+        cmps = [i for i in f2.body.instrs() if i.kind == "assign" and i.rv_kind() == "binop" and i.rv["op"] in ("Eq", "Ne")
+                and any(op.const is not None and str(op.const.get("val")) == "0" for op in i.ops)]
+        reps = [c for c in f2.body.calls() if (c.callee or "").endswith("::repeat") or (c.callee or "").endswith("::take")]
+        if len(cmps) != 1 or not reps:
+            continue
+        ins = cmps[0]
+        res = {}
+        for zero in (True, False):
+            v = "T" if (zero == (ins.rv["op"] == "Eq")) else "F"
+            it = optabs.OptInterp(f2.body, {ins.id: v})
+            it.run()
+            res[zero] = {r["ret"] if isinstance(r["ret"], str) else "?" for r in it.records}
+        if res[True] == {"N"} and "N" not in res[False]:
+            verdict = ("ok", ins)
+        elif "S" in res[True] or res[False] == {"N"}:
+            verdict = ("bad", ins)
+        else:
+            verdict = verdict or ("und", ins)
+    if verdict is None or verdict[0] == "und":
+        ctx.undecided(o, "the filter of the in-arcs is not recognised")
+    elif verdict[0] == "ok":
+        ctx.ok(o, "flow == 0 => skipped, otherwise decoded")
+    else:
+        ctx.bad(o, "the in-arc filter at %s keeps the arcs WITHOUT flow and skips those with flow: no tour is decoded from the circulation" % verdict[1].line(),
+                loc=verdict[1].line())
     con = [e for e in edges if e.role == "connection"]
     if len(con) == 1:
         e = con[0]
